@@ -229,6 +229,29 @@ func (w *kworld) mstep(op string) (out string, stop bool) {
 	case "ut":
 		t.UT()
 		return st(nil), false
+	case "safet": // safet:<axes>[:api] — Dense.SafeT / tensor.T
+		var r *tensor.Dense
+		var err error
+		if len(f) > 2 && f[2] == "api" {
+			var rt tensor.Tensor
+			if rt, err = tensor.T(t, ints(f[1])...); err == nil {
+				r = rt.(*tensor.Dense)
+			}
+		} else {
+			r, err = t.SafeT(ints(f[1])...)
+		}
+		if err != nil {
+			return st(err), false
+		}
+		w.t = r
+		return st(nil), false
+	case "apitr": // apitr:<axes> — tensor.Transpose
+		rt, err := tensor.Transpose(t, ints(f[1])...)
+		if err != nil {
+			return st(err), false
+		}
+		w.t = rt.(*tensor.Dense)
+		return st(nil), false
 	case "transpose":
 		return st(t.Transpose()), false
 	case "slice":
@@ -687,6 +710,13 @@ func genC15(tier string, r *rng, emit func(string)) {
 					mk(dt, 0, prog, fmt.Sprintf("setmask:%s;T:%s;%s", bs, ax, q))
 					// (a physical Transpose of a column-major tensor is F37, a second T on a pending
 					// one is F36: both outside this property)
+					if k%3 == 0 { // the copying spellings: the mask goes with the copy
+						mk(dt, 0, prog, fmt.Sprintf("setmask:%s;safet:%s;%s", bs, ax, after[r.intn(len(after))]))
+						mk(dt, 0, prog, fmt.Sprintf("setmask:%s;safet:%s:api", bs, ax))
+						if order == "rm" {
+							mk(dt, 0, prog, fmt.Sprintf("setmask:%s;apitr:%s;%s", bs, ax, after[r.intn(len(after))]))
+						}
+					}
 					if order == "rm" {
 						mk(dt, 0, prog, fmt.Sprintf("setmask:%s;T:%s;transpose", bs, ax))
 						q = after[r.intn(len(after))]
@@ -722,8 +752,13 @@ func genC15(tier string, r *rng, emit func(string)) {
 			mk("f64", 0, prog, "setmask:"+bs+";fill:77")
 			mk("i", 0, prog, "setmask:"+bs+";filli:77")
 		}
-		for _, dt := range []string{"i", "i8", "u8", "i16", "u32", "i64", "str", "b"} {
+		// the default fill value is chosen per element type: every type, Filled and FilledInplace
+		for _, dt := range dtypeNames {
 			mk(dt, 0, prog, "setmask:"+kRandBits(r, n)+";fill:-")
+			if n > 0 && n <= 4 {
+				mk(dt, 0, prog, "setmask:"+strings.Repeat("1", n)+";filli:-")
+				mk(dt, 0, prog, "setmask:"+strings.Repeat("1", n)+";fill:-")
+			}
 		}
 		mk("f32", 0, prog, "mfd:"+kRandBits(r, n))
 		mk("f32", 0, prog, "mfd:"+strings.Repeat("1", n))
